@@ -11,13 +11,15 @@ Local Open Scope Z_scope.
 
 (* one inline element of a one-line paragraph (leaf FOne): a struck-through phrase, a backslash escape, an image, nested emphasis *)
 Inductive inl := IStrike (w : str) | IEsc (c : Z) | IImg (w dest : str)
-  | INest (ch : Z) (k : nat) (h : str) (ps : list EmphPhrases.phrase) (z : str).     (* an emphasised phrase holding emphasised phrases *)
+  | INest (ch : Z) (k : nat) (h : str) (ps : list EmphPhrases.phrase) (z : str)
+  | ILinkT (w dest title : str).                                                    (* an inline link with a title in double quotes *)     (* an emphasised phrase holding emphasised phrases *)
 Definition inl_text (x : inl) : str :=
   match x with
   | IStrike w => [126; 126] ++ w ++ [126; 126]
   | IEsc c => [92; c]
   | IImg w d => [33; 91] ++ w ++ [93; 40] ++ d ++ [41]
   | INest ch k h ps z => repeat ch (S k) ++ (h ++ EmphPhrases.body ps ++ z) ++ repeat ch (S k)
+  | ILinkT w d tl => [91] ++ w ++ [93; 40] ++ d ++ [32; 34] ++ tl ++ [34; 41]
   end.
 Definition one_body (pre : str) (x : inl) (post : str) : str := pre ++ inl_text x ++ post.
 
